@@ -602,6 +602,9 @@ func execC19Session(c *child.Ctx, k proxyCase, cj []byte) {
 			return
 		}
 	}
+	if k.Two && c.NViolations() == 0 {
+		relayTwo(c, p, k, cj)
+	}
 	// the proxy must still be alive and must not have reported a race
 	time.Sleep(20 * time.Millisecond)
 	if !p.alive() {
@@ -612,6 +615,86 @@ func execC19Session(c *child.Ctx, k proxyCase, cj []byte) {
 		}
 		c.Violate(sig, "the proxy process ended: "+tail, cj)
 	}
+}
+
+// relayTwo runs two connections through the proxy at the same time.  The proxy
+// dials upstream synchronously for each accepted client, so dialling one after the
+// other fixes which upstream connection belongs to which client.  Each direction of
+// each connection must be relayed byte for byte; the parsed traffic of the two
+// clients interleaves, so the report is only checked for escaping.
+func relayTwo(c *child.Ctx, p *proxyProc, k proxyCase, cj []byte) {
+	r := ref.NewRand(k.Seed + 77)
+	type pair struct {
+		cl, up         net.Conn
+		cBytes, sBytes []byte
+		upGot, clGot   []byte
+	}
+	var ps [2]*pair
+	for i := range ps {
+		cl, err := net.DialTimeout("tcp", fmt.Sprintf("127.0.0.1:%d", p.proxyPort), 5*time.Second)
+		if err != nil {
+			c.Inconclusive("cannot connect a second client: " + err.Error())
+			return
+		}
+		up, err := acceptWithin(p.upstream, 20*time.Second)
+		if err != nil {
+			cl.Close()
+			c.Inconclusive("the proxy did not connect upstream for a concurrent client")
+			return
+		}
+		ps[i] = &pair{cl: cl, up: up, cBytes: proxyStream(r, r.Range(2000, 16000)), sBytes: proxyStream(r, r.Range(500, 8000))}
+	}
+	var wg sync.WaitGroup
+	for i := range ps {
+		q := ps[i]
+		cs, ss := make(chan struct{}), make(chan struct{})
+		wg.Add(4)
+		go func() {
+			defer wg.Done()
+			writeChunks(q.cl, q.cBytes, k.Chunk, k.GapUs, ref.NewRand(k.Seed+uint64(i)*5+11))
+			close(cs)
+		}()
+		go func() {
+			defer wg.Done()
+			writeChunks(q.up, q.sBytes, k.Chunk, k.GapUs, ref.NewRand(k.Seed+uint64(i)*5+12))
+			close(ss)
+		}()
+		go func() { defer wg.Done(); q.upGot = readN(q.up, len(q.cBytes), 20*time.Second, cs) }()
+		go func() { defer wg.Done(); q.clGot = readN(q.cl, len(q.sBytes), 20*time.Second, ss) }()
+	}
+	wg.Wait()
+	body, rerr := p.report()
+	for i, q := range ps {
+		q.cl.Close()
+		q.up.Close()
+		if !p.alive() {
+			c.Violate("proxy-died", "the proxy process ended while two clients were connected: "+p.stderrTail(), cj)
+			return
+		}
+		if !bytes.Equal(q.upGot, q.cBytes) {
+			if len(q.upGot) < len(q.cBytes) && bytes.Equal(q.upGot, q.cBytes[:len(q.upGot)]) {
+				c.Inconclusive("relay of a concurrent connection incomplete after 20 s of silence")
+				return
+			}
+			c.Violate("relay-altered", fmt.Sprintf("with two clients connected, upstream connection %d received %d bytes, its client sent %d: %s", i, len(q.upGot), len(q.cBytes), firstDiff(q.upGot, q.cBytes)), cj)
+			return
+		}
+		if !bytes.Equal(q.clGot, q.sBytes) {
+			if len(q.clGot) < len(q.sBytes) && bytes.Equal(q.clGot, q.sBytes[:len(q.clGot)]) {
+				c.Inconclusive("relay of a concurrent connection incomplete after 20 s of silence")
+				return
+			}
+			c.Violate("relay-altered", fmt.Sprintf("with two clients connected, client %d received %d bytes, its server sent %d: %s", i, len(q.clGot), len(q.sBytes), firstDiff(q.clGot, q.sBytes)), cj)
+			return
+		}
+	}
+	if rerr == nil {
+		if _, problem, _ := checkReport(body); problem != "" {
+			c.Violate("report-not-escaped", problem, cj)
+			return
+		}
+	}
+	c.Count("concurrent_connection_pairs_relayed", 1)
 }
 
 // htmlBait builds traffic that reads as HTML when dumped.
@@ -863,7 +946,7 @@ func monC19(c *child.Ctx, replay json.RawMessage) {
 	os.Stderr = saved
 	ns := c.Share(c.Pick(40, 1500))
 	for i := 0; i < ns; i++ {
-		k := proxyCase{ID: c.Batch*10000 + i, Kind: "session", Chunk: []int{0, 1, 17, 512, 4096}[r.Intn(5)], GapUs: []int{0, 200, 2000}[r.Intn(3)], Seed: r.Uint64() >> 1}
+		k := proxyCase{Two: i%2 == 0, ID: c.Batch*10000 + i, Kind: "session", Chunk: []int{0, 1, 17, 512, 4096}[r.Intn(5)], GapUs: []int{0, 200, 2000}[r.Intn(3)], Seed: r.Uint64() >> 1}
 		nconn := r.Range(1, 3)
 		size := 64000 / nconn
 		if k.Chunk == 1 {
